@@ -57,6 +57,7 @@ def zero : Val := .fin 0 1
 /-- The `rule` of a child of a `theta` subtree, as far as the code looks at it. -/
 inductive K where
   | lpar | rpar | comma | ws | fix | low | init | up | rep
+  | sd | var       -- SD / VAR options of a `diag_item` (omega_record.py)
   | other          -- COMMENT, NEWLINE, CONT, …: never inspected by theta_record.py
   deriving DecidableEq, Repr, Inhabited
 
